@@ -86,6 +86,11 @@ CHECKS = {
             "Generated ADFs are exported after generated call prefixes through serde JSON + fix_import and through the database-style node list; numbering, handles, names and all semantics answers must be preserved and agree with the definition.",
             "The CLI clauses (--export never overwrites, --import) are exercised by the CLI part once the binary harness is present. n<=6.",
             "DESIGN.md §6 C14"),
+    "C15": ("exploration",
+            "black-box property-based testing (proptest) of the CLI binary in all three library modes against the truth-table oracle",
+            "Generated files x sort flag x flag subset x --heu x --counter are run through the binary built from the current tree in all three --lib modes; stdout is parsed into sections and compared with the definitional answers; malformed files must fail without output. Open findings K1/K2 are matched by exact signature.",
+            "Labels without whitespace (output lines are tokenised at blanks); n<=5.",
+            "DESIGN.md §6 C15"),
 }
 
 PENDING = {}
